@@ -18,7 +18,8 @@ import tempfile
 VERIF = os.path.dirname(os.path.dirname(os.path.abspath(__file__)))
 BENIGN = os.path.join(VERIF, "seeded", os.environ.get("BENIGN_SET", "benign"))   # BENIGN_SET=benign2: the set written against the repaired tree
 PY = "/venv/bin/python"
-PROPS = ["C01", "C02", "C09", "C11", "C12", "C13", "C14", "C17", "C18", "C19", "C20"]
+PROPS = (os.environ.get("BENIGN_PROPS", "").split(",") if os.environ.get("BENIGN_PROPS") else
+         ["C01", "C02", "C09", "C11", "C12", "C13", "C14", "C17", "C18", "C19", "C20"])   # BENIGN_PROPS=C11,C12: partial re-run (result.json then holds only those; merged below)
 
 
 def sh(cmd, cwd=None, env=None, timeout=3600):
@@ -72,6 +73,13 @@ def run(bid):
         shutil.rmtree(wt, ignore_errors=True)
         sh(["git", "-C", "/repo", "worktree", "prune"])
     res["silent"] = bool(res.get("applies")) and all(c["rc"] == 0 for c in res["checks"].values())
+    if os.environ.get("BENIGN_PROPS") and os.path.exists(os.path.join(d, "result.json")):
+        old = json.load(open(os.path.join(d, "result.json")))       # a partial re-run updates the checks it ran
+        merged = dict(old.get("checks", {}))
+        merged.update(res["checks"])
+        res["checks"] = merged
+        res["silent"] = bool(res.get("applies")) and all(c["rc"] == 0 for c in merged.values())
+        res["partial_rerun"] = sorted(PROPS)
     json.dump(res, open(os.path.join(d, "result.json"), "w"), indent=1)
     return res
 
@@ -89,7 +97,7 @@ def main():
         r = run(bid)
         bad = {p: c for p, c in r.get("checks", {}).items() if c["rc"] != 0}
         print("%-8s applies=%s tests=%s  %s" % (bid, r.get("applies"), r.get("tests_passed"),
-                                               "all 11 checks silent" if r.get("silent") else "ALARMS: %s" % json.dumps(bad)[:600]))
+                                               "all checks silent" if r.get("silent") else "ALARMS: %s" % json.dumps(bad)[:600]))
         sys.stdout.flush()
         if not r.get("silent"):
             alarms.append(bid)
